@@ -21,6 +21,11 @@ import (
 )
 
 const (
+	wakeGrace   = 150 * time.Millisecond
+	confirmLost = 1500 * time.Millisecond
+)
+
+const (
 	stRunning = iota
 	stYielded
 	stBlocked
@@ -34,6 +39,9 @@ type thread struct {
 	arg    string // label argument of the pending operation
 	resume chan struct{}
 	prio   int
+	// pendingWake: marked running because a waker announced Signal/Broadcast/Done for it, not yet heard from
+	pendingWake bool
+	lostWake    bool // the announced wake-up did not arrive within the grace period
 }
 
 type sched struct {
@@ -52,6 +60,7 @@ type sched struct {
 	live     int            // target goroutines spawned and not yet past running.Done()
 	wgWait   *thread        // the main thread, when it is blocked in running.Wait()
 	pick     func(s *sched, ready []*thread) *thread
+	lost     []string // announced wake-ups that did not arrive within the grace period
 	choices  []string // names chosen, in order (the replayable schedule)
 	problems []string
 	free     bool // released: yields no longer stop (used to let the goroutines of an abandoned execution finish)
@@ -146,6 +155,49 @@ func (s *sched) release() {
 	}
 }
 
+func (s *sched) isFree() bool {
+	s.mu.Lock()
+	defer s.mu.Unlock()
+	return s.free
+}
+
+// heard: the calling thread has come back from a cond.Wait / WaitGroup.Wait. Normally it was announced by its waker;
+// if the announcement had been given up (lostWake) or never made, account for it now.
+func (s *sched) heard(gate bool) {
+	s.mu.Lock()
+	defer s.mu.Unlock()
+	t := s.me()
+	if t == nil {
+		return
+	}
+	t.pendingWake = false
+	if t.state == stBlocked {
+		t.state = stRunning
+		s.running++
+		t.lostWake = false
+		if gate {
+			for i, w := range s.gateQ {
+				if w == t {
+					s.gateQ = append(append([]*thread{}, s.gateQ[:i]...), s.gateQ[i+1:]...)
+					break
+				}
+			}
+		} else {
+			for k, q := range s.statusQ {
+				for i, w := range q {
+					if w == t {
+						s.statusQ[k] = append(append([]*thread{}, q[:i]...), q[i+1:]...)
+						break
+					}
+				}
+			}
+			if s.wgWait == t {
+				s.wgWait = nil
+			}
+		}
+	}
+}
+
 func (s *sched) finish(t *thread) {
 	s.mu.Lock()
 	t.state = stDone
@@ -195,6 +247,7 @@ func (s *sched) point(r *run, ev runner.VerifEvent) {
 		s.live--
 		if s.live == 0 && s.wgWait != nil { // Done() is about to release Wait()
 			s.wgWait.state = stRunning
+			s.wgWait.pendingWake = true
 			s.running++
 			s.wgWait = nil
 		}
@@ -213,6 +266,7 @@ func (s *sched) point(r *run, ev runner.VerifEvent) {
 		}
 		s.mu.Unlock()
 	case "main.waitedall":
+		s.heard(false)
 		s.mu.Lock()
 		s.log(s.me(), "waitall")
 		s.mu.Unlock()
@@ -288,6 +342,7 @@ func (s *sched) point(r *run, ev runner.VerifEvent) {
 		s.notify()
 		s.mu.Unlock()
 	case "wait.woke":
+		s.heard(false)
 	case "wait.done":
 		s.mu.Lock()
 		t := s.me()
@@ -310,6 +365,7 @@ func (s *sched) point(r *run, ev runner.VerifEvent) {
 		s.mu.Lock()
 		for _, w := range s.statusQ[ev.Label] {
 			w.state = stRunning
+			w.pendingWake = true
 			s.running++
 		}
 		s.statusQ[ev.Label] = nil
@@ -327,6 +383,15 @@ func (s *sched) point(r *run, ev runner.VerifEvent) {
 		s.notify()
 		s.mu.Unlock()
 	case "gate.woke":
+		// cond.Wait has returned and re-acquired the gate mutex. The window between being signalled and re-taking
+		// the mutex is a scheduling point of the real program: give the mutex back, stop, and take it again when
+		// resumed — exactly a waiter that was slow to re-acquire it. The for loop then re-tests the capacity.
+		s.heard(true)
+		if ev.Locker != nil && !s.isFree() {
+			ev.Locker.Unlock()
+			s.yield("rewake", "")
+			ev.Locker.Lock()
+		}
 	case "gate.entered":
 		s.mu.Lock()
 		s.log(s.me(), "enter:"+strconv.Itoa(ev.Capacity))
@@ -341,6 +406,7 @@ func (s *sched) point(r *run, ev runner.VerifEvent) {
 			w := s.gateQ[0]
 			s.gateQ = s.gateQ[1:]
 			w.state = stRunning
+			w.pendingWake = true
 			s.running++
 		}
 		s.mu.Unlock()
@@ -380,7 +446,7 @@ func (s *sched) enabled(t *thread) bool {
 // object touched by the pending operation of a yielded thread and whether it writes it ("" = local)
 func pendingObject(t *thread) (string, bool) {
 	switch t.at {
-	case "enter", "exit":
+	case "enter", "exit", "rewake":
 		return "gate", true
 	case "start":
 		return "status:" + t.arg, true
@@ -421,8 +487,10 @@ type verdict struct {
 
 // drive runs the controller loop until every thread is done, a deadlock, or the watchdog fires.
 func (s *sched) drive(watchdog time.Duration) verdict {
+	confirmed := false
 	for {
 		timeout := time.After(watchdog)
+		grace := time.After(wakeGrace)
 		for {
 			s.mu.Lock()
 			q := s.running == 0
@@ -432,6 +500,39 @@ func (s *sched) drive(watchdog time.Duration) verdict {
 			}
 			select {
 			case <-s.quiet:
+			case <-grace:
+				// Everything that still counts as moving was merely *announced* as woken (its waker was about to
+				// Signal / Broadcast) and has not been heard from: the wake-up did not happen (a Signal that is not
+				// executed, a waiter the code forgot). Treat those threads as still blocked and go on; should one of
+				// them show up later, `heard` accounts for it.
+				s.mu.Lock()
+				pend := 0
+				for _, n := range s.order {
+					if t := s.threads[n]; t.state == stRunning && t.pendingWake {
+						pend++
+					}
+				}
+				if pend > 0 && pend == s.running {
+					for _, n := range s.order {
+						t := s.threads[n]
+						if t.state == stRunning && t.pendingWake {
+							t.state, t.pendingWake, t.lostWake = stBlocked, false, true
+							s.running--
+							switch t.at {
+							case "enter":
+								s.gateQ = append([]*thread{t}, s.gateQ...)
+							case "wait":
+								s.statusQ[t.arg] = append(s.statusQ[t.arg], t)
+							case "mwaitall":
+								s.wgWait = t
+							}
+							s.lost = append(s.lost, t.name+"@"+t.at)
+						}
+					}
+					s.notify()
+				}
+				s.mu.Unlock()
+				grace = time.After(wakeGrace)
 			case <-timeout:
 				s.mu.Lock()
 				d := s.describe()
@@ -457,9 +558,21 @@ func (s *sched) drive(watchdog time.Duration) verdict {
 		}
 		if len(ready) == 0 {
 			d := s.describe()
+			anyLost := len(s.lost) > 0
+			lost := strings.Join(s.lost, ",")
 			s.mu.Unlock()
+			if anyLost && !confirmed {
+				// a wake-up was given up on earlier: make sure it is not merely late before calling this a deadlock
+				confirmed = true
+				time.Sleep(confirmLost)
+				continue
+			}
+			if anyLost {
+				d += " (announced wake-ups that never arrived: " + lost + ")"
+			}
 			return verdict{"deadlock", d}
 		}
+		confirmed = false
 		sort.Slice(ready, func(i, j int) bool { return ready[i].name < ready[j].name })
 		t := s.pick(s, ready)
 		if t == nil {
